@@ -38,6 +38,7 @@ type HistConfig struct {
 	PLinkOut       float64 // generated files of a package are moved elsewhere and linked in
 	PCwd           float64 // gengo is started in a package directory, not in the module root
 	PClock         float64 // an edit whose file clock is kept, far in the past or in the future; same-size edit motif
+	PProtect       float64 // generated files of a package become read-only, or get clocks from the future / the past
 }
 
 func schedOf(policy string, seed uint64) simrt.Schedule {
@@ -202,23 +203,28 @@ func (w *histWorld) injectFault(r *Rng, run *RunOp, kind string) {
 		}
 		switch r.Intn(7) {
 		case 6:
-			run.Faults = append(run.Faults, proto.Fault{ExecSeq: -1, Kind: "os.rename", Path: w.pkgFile(pi, w.base+"."+g+".go.tmp") + " -> " + w.pkgFile(pi, w.base+"."+g+".go"), Phase: "exec", Nth: 0, Do: "errno:" + Pick(r, []string{"EACCES", "EIO", "ENOSPC"})})
+			run.Faults = append(run.Faults, proto.Fault{ExecSeq: -1, Kind: "os.rename", Path: w.pkgFile(pi, w.base+"."+g+".go.tmp") + " -> " + w.pkgFile(pi, w.base+"."+g+".go"), Phase: "exec", Nth: 0, Do: "errno:" + Pick(r, renameErrnos)})
 		case 0:
-			run.Faults = append(run.Faults, proto.Fault{ExecSeq: -1, Kind: "os.open", Path: file, Phase: "exec", Nth: 0, Do: "errno:" + Pick(r, []string{"EACCES", "ENOSPC", "EMFILE", "EISDIR"})})
+			run.Faults = append(run.Faults, proto.Fault{ExecSeq: -1, Kind: "os.open", Path: file, Phase: "exec", Nth: 0, Do: "errno:" + Pick(r, openErrnos)})
 		case 1:
-			run.Faults = append(run.Faults, proto.Fault{ExecSeq: -1, Kind: "os.write", Path: file, Phase: "exec", Nth: r.Intn(40), Do: "short:" + fmt.Sprint(r.Intn(3)) + ":" + Pick(r, []string{"ENOSPC", "EIO"})})
+			run.Faults = append(run.Faults, proto.Fault{ExecSeq: -1, Kind: "os.write", Path: file, Phase: "exec", Nth: r.Intn(40), Do: "short:" + fmt.Sprint(r.Intn(3)) + ":" + Pick(r, writeErrnos)})
 		case 2:
 			// the save of gengo.sum (the second open of the file in a run: the first is the load)
-			run.Faults = append(run.Faults, proto.Fault{ExecSeq: -1, Kind: "os.write", Path: "gengo.sum", Phase: "exec", Nth: 0, Do: "short:" + fmt.Sprint(r.Intn(20)) + ":ENOSPC"})
+			if r.P(0.5) {
+				run.Faults = append(run.Faults, proto.Fault{ExecSeq: -1, Kind: "os.write", Path: "gengo.sum", Phase: "exec", Nth: 0, Do: "short:" + fmt.Sprint(r.Intn(20)) + ":" + Pick(r, writeErrnos)})
+			} else {
+				// ... or the file cannot be opened for writing (left behind by another user, a read-only checkout)
+				run.Faults = append(run.Faults, proto.Fault{ExecSeq: -1, Kind: "os.open", Path: "gengo.sum", Phase: "exec", Nth: 1, Do: "errno:" + Pick(r, []string{"EACCES", "EPERM", "EROFS", "EACCES", "ENOSPC", "EDQUOT"})})
+			}
 		case 3:
 			// gengo.sum cannot be read
-			run.Faults = append(run.Faults, proto.Fault{ExecSeq: -1, Kind: Pick(r, []string{"os.open", "os.read"}), Path: "gengo.sum", Phase: "exec", Nth: 0, Do: "errno:" + Pick(r, []string{"EACCES", "EIO"})})
+			run.Faults = append(run.Faults, proto.Fault{ExecSeq: -1, Kind: Pick(r, []string{"os.open", "os.read"}), Path: "gengo.sum", Phase: "exec", Nth: 0, Do: "errno:" + Pick(r, readErrnos)})
 		case 4:
-			run.Faults = append(run.Faults, proto.Fault{ExecSeq: -1, Kind: "os.remove", Path: w.pkgFile(pi, w.base+".old.go"), Phase: "exec", Nth: 0, Do: "errno:EACCES"})
+			run.Faults = append(run.Faults, proto.Fault{ExecSeq: -1, Kind: "os.remove", Path: w.pkgFile(pi, w.base+".old.go"), Phase: "exec", Nth: 0, Do: "errno:" + Pick(r, removeErrnos)})
 		case 5:
 			// the directory hash of a package cannot read one of its files (second open during load)
 			f := w.m.Pkgs[pi].Files[0]
-			run.Faults = append(run.Faults, proto.Fault{ExecSeq: -1, Kind: "os.open", Path: w.pkgFile(pi, f.Name), Phase: "load", Nth: 1, Do: "errno:" + Pick(r, []string{"EACCES", "EIO", "EMFILE"})})
+			run.Faults = append(run.Faults, proto.Fault{ExecSeq: -1, Kind: "os.open", Path: w.pkgFile(pi, f.Name), Phase: "load", Nth: 1, Do: "errno:" + Pick(r, readErrnos)})
 		}
 	case "kill":
 		run.Faults = append(run.Faults, proto.Fault{ExecSeq: r.Intn(250), Do: Pick(r, []string{"kill", "kill", "kill-after:1", "signal:TERM", "signal:INT"})})
@@ -340,6 +346,25 @@ func DrawHistory(r *Rng, cfg HistConfig) (*Scenario, *histWorld) {
 			mid := w.drawRun(r, cfg)
 			mid.Args.All = true
 			ops = append(ops, Op{Kind: "touch", K: pi, Path: f, SameSize: true}, Op{Kind: "run", Run: mid}, Op{Kind: "touch", K: pi, Path: f, SameSize: true, MTime: "keep"})
+		case r.P(cfg.PProtect):
+			pi := r.Intn(len(m.Pkgs))
+			var follow *Op
+			if cfg.PRetag > 0 && r.P(0.5) {
+				if op, ok := w.drawRetag(r); ok {
+					pi, follow = op.K, &op
+				}
+			}
+			if r.P(0.5) {
+				ops = append(ops, Op{Kind: "protect", K: pi})
+			} else {
+				ops = append(ops, Op{Kind: "outclock", K: pi, How: Pick(r, []string{"future", "future", "old"})})
+			}
+			// and the package is edited (or its tags change), so that it is generated again
+			if follow != nil {
+				ops = append(ops, *follow)
+			} else if r.P(0.7) {
+				ops = append(ops, Op{Kind: "touch", K: pi, Path: m.Pkgs[pi].Files[0].Name, Note: "after " + ops[len(ops)-1].Kind})
+			}
 		case r.P(cfg.PLinkOut):
 			ops = append(ops, Op{Kind: "linkout", K: r.Intn(len(m.Pkgs))})
 			if r.P(0.7) {
@@ -523,7 +548,7 @@ func runHistory(c *CheckCtx, i int, r *Rng, cfg HistConfig) error {
 // SimC06: dispatch of GenerateType/GenerateAliasType/Defer over the tag lattice
 // and declaration kinds, under adversarial map orders.
 func SimC06(c *CheckCtx, i int, r *Rng) error {
-	return runHistory(c, i, r, HistConfig{MinOps: 1, MaxOps: 4, PAll: 0.6, PForce: 0.5, PGlobals: 0.5, PSubsetGens: 0.2, PEdit: 0.1, PRetag: 0.3, PCancel: 0.15, PWarm: 0.05, PTwoPasses: 0.25, PGenFault: 0.15})
+	return runHistory(c, i, r, HistConfig{MinOps: 1, MaxOps: 4, PAll: 0.6, PForce: 0.5, PGlobals: 0.5, PSubsetGens: 0.2, PEdit: 0.1, PRetag: 0.3, PCancel: 0.15, PWarm: 0.05, PTwoPasses: 0.25, PGenFault: 0.15, PProtect: 0.12})
 }
 
 // SimC07: gengo only touches its own output files.
@@ -533,7 +558,7 @@ func SimC07(c *CheckCtx, i int, r *Rng) error {
 		return SimC08(c, i, r)
 	}
 	return runHistory(c, i, r, HistConfig{MinOps: 3, MaxOps: 7, PAll: 0.6, PForce: 0.3, PGlobals: 0.2, PSubsetGens: 0.5, PEdit: 0.15, PStale: 0.25,
-		PSumOps: 0.05, PBreak: 0.08, PGenFault: 0.12, PIOFault: 0.12, PKill: 0.1, PConverge: 0.2, PMute: 0.35, PDepOutside: 0.5, PReal: 0.1, PUniform: 0.3, PCancel: 0.05, PWarm: 0.1, PLinkOut: 0.1, PCwd: 0.2, PClock: 0.1})
+		PSumOps: 0.05, PBreak: 0.08, PGenFault: 0.12, PIOFault: 0.12, PKill: 0.1, PConverge: 0.2, PMute: 0.35, PDepOutside: 0.5, PReal: 0.1, PUniform: 0.3, PCancel: 0.05, PWarm: 0.1, PLinkOut: 0.1, PCwd: 0.2, PClock: 0.1, PProtect: 0.08})
 }
 
 // SimC08: the gengo.sum cache against the reference model.
@@ -542,7 +567,7 @@ func SimC08(c *CheckCtx, i int, r *Rng) error {
 		return simWide(c, i, r)
 	}
 	return runHistory(c, i, r, HistConfig{MinOps: 4, MaxOps: 9, PAll: 0.85, PForce: 0.15, PGlobals: 0.1, PSubsetGens: 0.2, PEdit: 0.3, PStale: 0.05,
-		PSumOps: 0.2, PUnhashable: 0.06, PBreak: 0.04, PGenFault: 0.1, PIOFault: 0.12, PKill: 0.08, PMidEdit: 0.1, PConverge: 0.6, PFailAfterEdit: 0.12, PMute: 0.1, PReal: 0.08, PUniform: 0.4, PCancel: 0.04, PWarm: 0.06, PCwd: 0.1, PClock: 0.25})
+		PSumOps: 0.2, PUnhashable: 0.06, PBreak: 0.04, PGenFault: 0.1, PIOFault: 0.12, PKill: 0.08, PMidEdit: 0.1, PConverge: 0.6, PFailAfterEdit: 0.12, PMute: 0.1, PReal: 0.08, PUniform: 0.4, PCancel: 0.04, PWarm: 0.06, PCwd: 0.1, PClock: 0.25, PProtect: 0.06})
 }
 
 // simWide: a module with many local packages (a size no small world reaches: code that switches
